@@ -1,1 +1,69 @@
-From TL Require Import Base.Base.
+(* C16 - Errors carry accurate, renderable source locations.                 *)
+(* Statements only; the proofs are in Proofs/Positions.v and ReaderTotal.v.    *)
+From TL Require Import Base.Base Model.Reader Model.Printer Model.Store Model.Eval Model.Init.
+From TL Require Import Proofs.ReaderTotal Proofs.Positions.
+Local Open Scope N_scope.
+Local Open Scope list_scope.
+
+(* the tokenizer's position after consuming any sequence of characters: line *)
+(* = start line + newlines consumed; column = 1 + characters (not bytes) since  *)
+(* the last newline, or start column + characters when there was none           *)
+Theorem C16_line_column_exact : forall cs line pos,
+  walk cs line pos =
+  (line + count_nl cs,
+   if N.eqb (count_nl cs) 0 then pos + N.of_nat (List.length cs)
+   else 1 + N.of_nat (List.length (after_nl cs))).
+Proof. exact walk_spec. Qed.
+
+Theorem C16_positions_compose : forall a b line pos,
+  walk (a ++ b) line pos = let '(l, p) := walk a line pos in walk b l p.
+Proof. exact walk_app. Qed.
+
+(* columns are at least 1: every span the reader produces is well formed *)
+Theorem C16_columns_positive : forall cs,
+  fst (walk cs 1 1) = 1 + count_nl cs /\ 1 <= snd (walk cs 1 1).
+Proof. exact walk_from_start. Qed.
+
+(* an identifier / number token: its characters are exactly a prefix of the  *)
+(* input without delimiters, and its end position is where walking those        *)
+(* characters from its start position ends: the extent of the token as written  *)
+Theorem C16_token_extent : forall cs line pos first i f acc out i' f' rest l p,
+  scan_ident cs line pos first i f acc = (out, i', f', rest, l, p) ->
+  exists consumed, cs = consumed ++ rest /\ out = rev acc ++ consumed /\
+                   walk consumed line pos = (l, p) /\
+                   forallb (fun c => negb (ident_stop c)) consumed = true.
+Proof. exact scan_ident_walk. Qed.
+
+(* the reader is total (C08): every text yields forms with spans or a parse error *)
+Theorem C16_reader_total : forall F fl t,
+  (exists forms, read_ax F fl t = Ok forms) \/ read_ax F fl t = Err EParse.
+Proof. exact read_ax_total. Qed.
+
+Print Assumptions C16_line_column_exact. Print Assumptions C16_positions_compose.
+Print Assumptions C16_columns_positive. Print Assumptions C16_token_extent.
+Print Assumptions C16_reader_total.
+
+(* non-vacuity: spans of a list and of a symbol after a multi-line, non-ASCII prefix *)
+Definition F0 : fops :=
+  {| f_add := fun _ _ => 0%Z; f_sub := fun _ _ => 0%Z; f_mul := fun _ _ => 0%Z;
+     f_div := fun _ _ => 0%Z; f_rem := fun _ _ => 0%Z; f_pow := fun _ _ => 0%Z;
+     f_max := fun _ _ => 0%Z; f_min := fun _ _ => 0%Z; f_of_int := fun z => z;
+     f_to_int := fun z => z; f_round := fun z => z; f_trunc := fun z => z;
+     f_lt := Z.ltb; f_le := Z.leb; f_eq := Z.eqb; f_is_finite := fun _ => true;
+     f_to_dec := fun _ => []; f_of_dec := fun _ => None |}.
+Definition fl0 := {| t_interned := false; nil_interned := false |}.
+Example C16_spans :
+  match read_ax F0 fl0 ([233; 10; 32; 32] ++ s2t "(ab cd)") with
+  | Ok [_; AList [ASym _ s1; ASym _ s2] None sl] =>
+      (s_l sl, s_c sl, e_l sl, e_c sl) = (2, 3, 2, 10) /\
+      (s_l s1, s_c s1, e_l s1, e_c s1) = (2, 4, 2, 6) /\
+      (s_l s2, s_c s2, e_l s2, e_c s2) = (2, 7, 2, 9)
+  | _ => False
+  end.
+Proof. vm_compute. repeat split. Qed.
+
+Check C16_line_column_exact : forall cs line pos,
+  walk cs line pos =
+  (line + count_nl cs,
+   if N.eqb (count_nl cs) 0 then pos + N.of_nat (List.length cs)
+   else 1 + N.of_nat (List.length (after_nl cs))).
